@@ -37,6 +37,9 @@ def workloads(rng, tier):
         out.append(["!fanin rcvhwm=5000/uring=1,sndhwm=2000,linger=60000%s 32 1000 8192 closeint" % zc])
     for a, b in (("uring=1", "-"), ("-", "uring=1"), ("uring=1", "uring=1"), ("uring=1,ms=0", "uring=1,ms=0")):
         out.append(["peerclose %s %s" % (a, b)])
+    # the io_uring side closes while its peer is still sending: the receive buffers the kernel held come back (more rounds than buffers)
+    out.append(["!rchurn uring=1,ms=0 %d" % (20 if tier == "quick" else 80)])
+    out.append(["!rchurn uring=1 %d" % (12 if tier == "quick" else 80)])
     out.append(["slowdrip type=PULL,hsivl=600,uring=1 300 hff00000000000000017f03"])   # known finding: no handshake deadline
     return out
 
@@ -168,7 +171,7 @@ def mk_components():
               "nontrivial": lambda c, i: any(l.isdigit() for l in i), "dist": lambda cs: {"cases": len(cs), "ops": sum(len(c) for c in cs)}}]
     for name, env in URING_ENVS:
         comps.append({"comp": "stack", "gen": workloads, "label": "uring-" + name, "shrink": False, "env": env,
-                      "nontrivial": lambda c, i: any(l.startswith(("delivered=", "hwm=ok", "churn=ok", "fanin=ok", "fanin=intact", "peerclose=seen")) for l in i),
+                      "nontrivial": lambda c, i: any(l.startswith(("delivered=", "hwm=ok", "churn=ok", "fanin=ok", "fanin=intact", "peerclose=seen", "rchurn=ok")) for l in i),
                       "dist": lambda cs: {"cases": len(cs), "streams": sum(1 for c in cs if c[0].startswith("stream")),
                                           "hwm": sum(1 for c in cs if c[0].startswith("hwm")),
                                           "churn/fanin": sum(1 for c in cs if c[0].lstrip("!").startswith(("churn", "fanin")))}})
